@@ -1,43 +1,48 @@
 """C16  A battery is reported usable only while its data proves it healthy.
 
-All rules are decided on *path summaries* (sa/props/_c16_util.py): every path through an anchored
-function is walked symbolically; locals, parameters, helper calls and comprehension variables are
-eliminated, conditions are split into canonical atoms (`a > b` == `b < a` == `not a <= b`, De Morgan,
-ternary / early return / if-else all alike), attribute writes and calls are recorded in order.  A rule
-then quantifies over paths: "whenever <outcome> then <atoms decided so / writes / calls present>".
+All rules are decided on *path summaries* (sa/props/_c16_util.py): code is walked symbolically path by
+path; locals, parameters, comprehension variables and private helpers are eliminated (helpers are
+executed in line, by value), conditions are split into canonical atoms (`a > b` == `b < a` ==
+`not a <= b`, De Morgan, ternary / early return / if-else all alike), attribute writes and calls are
+recorded in order.  A rule then quantifies over paths: "whenever <outcome> then <atoms decided so /
+writes / calls present>".
 
-  C16.SAFE    for every disqualifying fact (stale / invalid component state / invalid relay state /
-              critical error / NaN capacity for the battery; stale / invalid state / critical error
-              for the inverter) every path on which the validity predicate returns something that is
-              not False has tested that fact with the outcome "does not hold"; on every path of a
-              message handler the stream's flag is written, and written True only if every required
-              predicate was evaluated to True on the received message; WORKING/UNCERTAIN is returned
-              only on paths where both flags were found true.  The sets of operational states are a
-              frozen table; staleness is exactly `max_data_age < now - timestamp`.
-  C16.TIMER   on every path of a message handler the message timestamp is recorded and that stream's
-              timer reset; in the select loop every event source (two data streams, set-power results)
-              is processed by its own handler with the selected message, and that handler runs for no
-              other event; every path of a timer branch decides freshness on *its
-              own* stream's last timestamp (and on no other stream's), a stale outcome calls that
-              stream's timer handler, after which that stream's flag is false on every path and the
-              other flag untouched; every path that calls a `_handle_status_*` afterwards evaluates
-              the change detection; the select loop sits in a try absorbing Exception inside an
-              endless loop that nothing leaves.
-  C16.CHANGE  a path sends iff the change detector's result was found not None, after the (single)
-              detection, and sends ComponentStatus(component_id=battery id, value=that result); the
-              detector calls `_get_current_status` once, and returns it exactly on the paths where it
-              differs from `_last_status`, after storing it (otherwise None, nothing stored).
+The tracker is analysed as ONE unit: one iteration of its select loop with every private method of the
+class executed in line — message handlers, validity predicates, timer handlers, status decision, change
+detection, whatever they are called and however the code is cut into functions.  The method holding the
+loop is found by its role (it contains the `select(...)` loop), everything else by being called from it;
+the event sources are recognised by what produced the receiver, the message is `SELECTED.message`.  No
+private name is matched, so renaming, inlining, extracting or merging helpers cannot change a verdict.
+
+  C16.SAFE    on the paths that handle a data message of a stream, the stream's flag is written on every
+              path, and written True only if every disqualifying fact of that stream (stale — exactly
+              `max_data_age < now - message timestamp` —, invalid component state, invalid relay state,
+              critical error, NaN capacity for the battery; stale, invalid state, critical error for the
+              inverter) was tested *on that message* with the outcome "does not hold"; a status other
+              than NOT_WORKING becomes the stored (= reported) status only on paths where both flags
+              are known true at that moment.  The sets of operational states are a frozen table.
+  C16.TIMER   a data message records its timestamp and resets its stream's timer on every path, and only
+              an event of that stream can set that stream's timestamp or make its flag true; only a
+              set-power result reaches block(); every path of a timer event decides freshness on *its
+              own* stream's last timestamp (and on no other stream's); a stale outcome leaves that
+              stream's flag false and the other untouched, a late event changes no flag; every path that
+              changes a flag or the block re-evaluates the status afterwards; the select loop sits in a
+              try absorbing Exception inside an endless loop that nothing leaves.
+  C16.CHANGE  a path sends iff it stored a new status (once, store first); the payload is
+              ComponentStatus(component_id=battery id, value=the stored status); a status is stored only
+              after it was compared with `_last_status` and found different.
   C16.BLOCK   BlockingStatus.block: every path is one of not blocked -> duration := min_duration;
               still blocked (now < blocked_until) -> zero returned, no state write; expired ->
               duration := min(2 * last, max); blocked_until := now + the new duration (values compared
               in polynomial normal form after strong update of written attributes); unblock clears on
-              every path; is_blocked is True exactly when blocked_until is set and in the future; the
-              tracker unblocks on every path with a success and blocks exactly on failure when the
-              last status was not NOT_WORKING; a blocked healthy battery is UNCERTAIN and WORKING is
-              returned only when is_blocked() was false or the recovery from NOT_WORKING cleared it; uncertain
-              components are returned exactly when the working intersection is empty.
-  C16.POOL    ComponentPoolStatusTracker._update_status (what consumers see): for every status message
-              and every path consistent with a status value (the enum is closed), the reported
+              every path; is_blocked is True exactly when blocked_until is set and in the future; on the
+              paths handling a set-power result the tracker unblocks on every success and blocks exactly
+              on failure when the last status was not NOT_WORKING; a blocked healthy battery becomes
+              UNCERTAIN, and WORKING only when is_blocked() was false or the recovery from NOT_WORKING
+              cleared the block; uncertain components are returned exactly when the working
+              intersection is empty.
+  C16.POOL    the pool tracker's status loop (found by role; what consumers see): for every status
+              message and every path consistent with a status value (the enum is closed), the reported
               component ends in `working` only for WORKING, in `uncertain` only for UNCERTAIN and in
               neither set for NOT_WORKING (last add / discard / remove on each published set for that
               id), and the updated status is sent afterwards on every path.
@@ -851,11 +856,13 @@ def run_rules(run: Run, prog: Program) -> None:
 
 
 def check(run: Run, prog: Program, tier: str) -> str:
-    run.rule("C16.SAFE", "each disqualifying fact forces its predicate to False on every path; flags are the "
-             "conjunction of all predicates; WORKING/UNCERTAIN only with both flags; operational-state sets frozen")
-    run.rule("C16.TIMER", "handlers record timestamp + reset their timer; each timer branch judges and clears its "
-             "own stream; every state-changing branch reaches the change detection")
-    run.rule("C16.CHANGE", "notifications only for detected changes; detector stores before returning")
+    run.rule("C16.SAFE", "a stream's flag becomes true only if every disqualifying fact was tested on that message and "
+             "excluded; the flag is renewed by every message; WORKING/UNCERTAIN stored only with both flags; "
+             "operational-state sets frozen")
+    run.rule("C16.TIMER", "messages record timestamp + reset their timer; events are dispatched to their own stream; each "
+             "timer branch judges and clears its own stream; every state change is followed by a status evaluation; "
+             "the loop is kept alive")
+    run.rule("C16.CHANGE", "a notification is sent iff a new status was stored, carries it, and it was found different first")
     run.rule("C16.BLOCK", "back-off: min on first, unchanged while blocked, min(2*last, max) when expired; "
              "unblock on every success; block on failure unless NOT_WORKING; uncertain only as fallback")
     run.rule("C16.POOL", "the published pool status: after a status message the component is in `working` only for "
@@ -877,9 +884,10 @@ def check(run: Run, prog: Program, tier: str) -> str:
                "an attribute not written on the path denotes the same value at every read")
     run.undecided("races between the wall clock and the timers (strict `<` at exactly max_data_age); "
                   "message delivery timing")
-    return ("Symbolic path summaries of the anchored functions (locals, parameters, simple private helpers "
-            "and comprehension variables eliminated; conditions split into canonical atoms; writes and calls in "
-            "order): per-path implication rules for the validity predicates (not-False result => every "
-            "disqualifying fact tested and excluded), the health flags (True => all required predicates True), "
-            "the status decision, the two timer branches of the select loop, change notification, and "
-            "polynomial-normal-form rules on the exponential back-off.")
+    return ("Symbolic path summaries (locals, parameters, private helpers and comprehension variables eliminated; "
+            "conditions split into canonical atoms; writes and calls in order).  The tracker is one unit: one "
+            "iteration of its select loop with all private methods executed in line, located by role; per-path "
+            "implication rules on the health flags (true => every disqualifying fact tested on that message and "
+            "excluded), the stored/reported status, the timer branches, dispatch, change notification and the "
+            "set-power handling; polynomial-normal-form rules on the exponential back-off; membership rules on the "
+            "published pool status.")
